@@ -566,6 +566,8 @@ impl<'a> GeneratorState<'a> {
                                 if self.saved_y && !outer_saved_y {
                                     self.asm_restore_y();
                                     self.saved_y = false;
+                                    self.tmp_in_use = false;
+                                    self.flags = FlagsState::Y;
                                 }
                                 return Ok(left);
                             }
